@@ -110,6 +110,10 @@ def State.held (s : State) : Option Nat :=
 
 def init : State := {}
 
+/-- Start of a later attempt in the same process (a fresh `MultiPartUpload` / writer for
+the object): `_state` still holds the lock object `l` an earlier attempt created. -/
+def initWithLock (l : Nat) : State := { slot := some l }
+
 /-- One atomic step of thread `t`. -/
 def step (cfg : Cfg) (s : State) (t : Nat) : State :=
   match s.pc t with
@@ -226,6 +230,15 @@ def State.setWid (s : State) (w : Nat) (id : Nat) : State :=
   { s with wid := fun i => if i = w then id else s.wid i }
 
 def init : State := {}
+
+/-- `DelayedS3Writer.prep_client` (241-244), run by `MultiPartUpload.writer` when a client
+exists: `v.set(None)` whatever an earlier attempt on the same scheduler left in the shared
+variable (a stale upload id of an attempt that never finalised, or nothing). -/
+def prepClient (_leftover : Option Nat) : Option Nat := none
+
+/-- Start of an attempt on a scheduler whose shared variable held `leftover`: fresh copies
+on every worker, the variable as `prep_client` leaves it. -/
+def initAfterPrep (leftover : Option Nat) : State := { var := prepClient leftover }
 
 def step (cfg : Cfg) (s : State) (t : Nat) : State :=
   let w := cfg.worker t
